@@ -168,6 +168,10 @@ def _run_case(case):
             t = DataFrame(rows=build(case["rows"]), schema=list(case["names"]))
             r = [compiled.calculate_data_width(t.collect(i)) for i in range(t.columncount)]  # display.py:335
             return {"ok": {"type": "list", "value": [int(x) for x in r]}}
+        if k == "seq":  # several calls in one child (replays a death that a single call does not reproduce)
+            for c in case["cases"]:
+                _run_case(c)
+            return {"ok": {"n": len(case["cases"])}}
         raise KeyError(k)
     except KeyError:
         raise
@@ -216,7 +220,7 @@ def _child_main():
             os._exit(0)
         os.close(c2w_r)
         os.close(w2c_w)
-        worker.update(pid=pid, n=0, w=c2w_w, r=os.fdopen(w2c_r, "r"))
+        worker.update(pid=pid, n=0, w=c2w_w, r=os.fdopen(w2c_r, "r"), hist=[])
 
     def drop_worker():
         if worker["pid"] is None:
@@ -263,6 +267,7 @@ def _child_main():
                 drop_worker()
                 spawn_worker()
             worker["n"] += 1
+            worker["hist"].append(case)
             try:
                 _write_all(worker["w"], (json.dumps(case) + "\n").encode())
                 out = worker["r"].readline()
@@ -271,9 +276,12 @@ def _child_main():
             if out:
                 res = json.loads(out)
             else:
+                hist = worker["hist"]
                 s = drop_worker()
                 again = iso(case)
                 res = {"died": s, "reproduced": "died" in again, "isolated": again}
+                if "died" not in again:  # an earlier call in the same worker must have corrupted memory
+                    res["history"] = hist[-400:]
         _write_all(proto_out, (json.dumps(res) + "\n").encode())
     drop_worker()
 
@@ -424,6 +432,7 @@ def _mode(case):
 
 
 _TIMEOUTS = {}
+_HIST = {}  # case JSON -> the calls the shared worker had served when it died on a case that is innocent alone
 
 
 def observe(case):
@@ -435,6 +444,9 @@ def observe(case):
     if _TIMEOUTS.get(k, 0) >= BREAKER and sys._getframe(1).f_code.co_name == "explore":
         return {"skipped": "circuit breaker: %d earlier %s cases were killed by the %d s alarm" % (_TIMEOUTS[k], k, ALARM_S)}
     obs = _ask(case, _mode(case))
+    if "history" in obs:
+        _HIST[json.dumps(case, sort_keys=True)] = obs.pop("history")
+        obs["shared_worker_calls_before"] = len(_HIST[json.dumps(case, sort_keys=True)]) - 1
     if obs.get("died") == -14 and known(case, obs) is None:
         _TIMEOUTS[k] = _TIMEOUTS.get(k, 0) + 1
     return obs
@@ -560,8 +572,13 @@ def oracle(case, obs):
     if "skipped" in obs:
         return None
     if "died" in obs:
+        if obs.get("reproduced") is False:
+            return ("no input may terminate the interpreter: the shared worker died with status %s while serving this call; the call alone does not "
+                    "reproduce it, so one of the %s earlier calls in that worker corrupted memory (shrinking replays the sequence)" % (obs["died"], obs.get("shared_worker_calls_before", "?")))
         return "no input may terminate the interpreter: the sacrificial child died with status %s" % obs["died"]
     k = case["k"]
+    if k == "seq":
+        return None
     if k == "collect":
         try:
             want, n = _definition_collect(build(case["rows"]), build(case["cols"]), build(case["limit"]) if "limit" in case else -1)
@@ -1116,6 +1133,23 @@ def search(rng):
 
 def shrink(case):
     k = case["k"]
+    key = json.dumps(case, sort_keys=True)
+    if key in _HIST:  # death of the shared worker not reproduced by the call alone: replay the whole sequence in one child
+        yield {"k": "seq", "cases": _HIST[key]}
+    if k == "seq":
+        cs = case["cases"]
+        n = len(cs)
+        if n > 1:
+            yield {"k": "seq", "cases": cs[n // 2:]}
+            yield {"k": "seq", "cases": cs[: n // 2]}
+            for step in (n // 4, n // 8, 1):
+                if step >= 1:
+                    for i in range(0, n, step):
+                        if i + step <= n and n - step >= 1:
+                            yield {"k": "seq", "cases": cs[:i] + cs[i + step:]}
+        elif n == 1:
+            yield cs[0]
+        return
     if k in ("collect", "df") and case["rows"][0] == "l":
         rows = case["rows"][1]
         for i in range(len(rows)):
